@@ -131,3 +131,24 @@ def replay_e3(build, item, inputs):
     spec = build(item)
     failed, exc = symex.run_concrete(spec["harness"], inputs, spec.get("expected_exc", ()))
     return failed, exc
+
+
+def coverage_modules():
+    import importlib
+    names = ["vsc.coverage", "vsc.model.coverpoint_model", "vsc.model.coverpoint_bin_array_model",
+             "vsc.model.coverpoint_bin_collection_model", "vsc.model.coverpoint_bin_single_bag_model",
+             "vsc.model.coverpoint_bin_single_val_model", "vsc.model.coverpoint_bin_single_range_model",
+             "vsc.model.coverpoint_bin_enum_model", "vsc.model.coverpoint_bin_single_wildcard_model",
+             "vsc.model.coverpoint_cross_model", "vsc.model.covergroup_model", "vsc.model.rangelist_model",
+             "vsc.impl.wildcard_bin_factory", "vsc.model.expr_ref_model", "vsc.model.expr_fieldref_model",
+             "vsc.model.expr_partselect_model", "vsc.model.expr_bin_model", "vsc.visitors.coverage_save_visitor"]
+    return [importlib.import_module(n) for n in names]
+
+
+def coverage_standins():
+    return pyvsc_standins(coverage_modules())
+
+
+def reset_coverage_registry():
+    from vsc.impl.coverage_registry import CoverageRegistry
+    CoverageRegistry._inst = None
